@@ -187,29 +187,31 @@ def rev8(b):
 
 # ---------------------------------------------------------------- HFE
 
-def hfe_side_bytes(cells, encoding):
-    """HFE stores cells LSB-first; FM is stored at double rate (raw bit 2i = 0, 2i+1 = cell i)."""
+def hfe_side_bytes(cells, encoding, ops=None):
+    """HFE stores cells LSB-first; FM is stored at double rate (raw bit 2i = 0,
+    2i+1 = cell i).  ops (HFEv3 only): {data_byte_index: [(kind, arg), ...]} with
+    kinds nop / setindex / setbitrate(arg) / skipbits(arg = number of bits of the
+    following byte that carry no data; the remaining 8-arg bits continue the
+    cell stream)."""
     if encoding == "FM":
-        raw = []
-        for c in cells:
-            raw.append(0)
-            raw.append(c)
-        return cells_to_bytes_lsb(raw)
-    return cells_to_bytes_lsb(cells)
-
-
-def hfe_insert_opcodes(side_bytes, ops):
-    """HFEv3: insert opcodes between cell bytes.  ops: list of (byte_position, kind, arg).
-    kinds: 'nop', 'setindex', 'setbitrate' (arg), 'skipbits' (arg = count 0..7; the
-    following byte then carries only 8-count valid bits -- the caller must have
-    arranged the cell stream accordingly, so this helper only supports count=0
-    insertion-neutral forms unless arg handling is done by build_hfe)."""
+        raw = bytearray(2 * len(cells))
+        raw[1::2] = bytes(cells)
+    else:
+        raw = bytearray(cells)
     out = bytearray()
-    ops = sorted(ops, key=lambda o: o[0])
-    oi = 0
-    for pos in range(len(side_bytes) + 1):
-        while oi < len(ops) and ops[oi][0] == pos:
-            _, kind, arg = ops[oi]
+    pos = 0
+    nbytes = 0
+    n = len(raw)
+    ops = ops or {}
+
+    def pack(bits):
+        b = 0
+        for i, c in enumerate(bits):
+            if c:
+                b |= 1 << i
+        return b
+    while pos < n:
+        for kind, arg in ops.get(nbytes, ()):
             if kind == "nop":
                 out.append(rev8(0xF0))
             elif kind == "setindex":
@@ -217,9 +219,19 @@ def hfe_insert_opcodes(side_bytes, ops):
             elif kind == "setbitrate":
                 out.append(rev8(0xF2))
                 out.append(rev8(arg & 0xFF))
-            oi += 1
-        if pos < len(side_bytes):
-            out.append(side_bytes[pos])
+            elif kind == "skipbits":
+                out.append(rev8(0xF3))
+                out.append(rev8(arg & 7))
+                k = arg & 7
+                bits = [0] * k + list(raw[pos:pos + 8 - k])
+                pos += 8 - k
+                bits += [0] * (8 - len(bits))
+                out.append(pack(bits))
+        bits = list(raw[pos:pos + 8])
+        pos += 8
+        bits += [0] * (8 - len(bits))
+        out.append(pack(bits))
+        nbytes += 1
     return bytes(out)
 
 
@@ -250,9 +262,8 @@ def build_hfe(tracks_cells, nsides, encoding, version=1, v3ops=None, bitrate=250
         sides = []
         for sd in range(2):
             if sd < nsides:
-                sb = hfe_side_bytes(tracks_cells[t][sd], encoding)
-                if v3ops and version == 3:
-                    sb = hfe_insert_opcodes(sb, v3ops(t, sd, len(sb)))
+                ops = v3ops(t, sd) if (v3ops and version == 3) else None
+                sb = hfe_side_bytes(tracks_cells[t][sd], encoding, ops)
             else:
                 sb = b""
             sides.append(sb)
